@@ -2,6 +2,7 @@
 //! real swiftness functions with generated and hostile inputs and compare with the models.
 pub mod fri_check;
 pub mod merkle_check;
+pub mod mini;
 pub mod pow_check;
 pub mod table_check;
 pub mod transcript_check;
@@ -29,6 +30,7 @@ pub fn dispatch(args: &Args) -> Option<Report> {
         "frisound" => fri_check::run(args, true),
         "transcript" => transcript_check::run(args),
         "pow" => pow_check::run(args),
+        "mini" => mini::run(args),
         _ => return None,
     })
 }
